@@ -93,7 +93,7 @@ def check(prop, tier):
     out = Outcome(prop, tier)
     sd = seed()
     # ---- discovery: enumerated layouts -> real packages ----
-    dc = disc_cfg(2, 2, 3) if tier == "quick" else disc_cfg(3, 2, 4)
+    dc = disc_cfg(2, 2, 3) if tier == "quick" else disc_cfg(2, 2, 4)   # (3, 2, 4) exceeds what TLC can build as one set
     r = tlc.run("SelectorDisc", dc, workers=1, heap="12g", timeout=14400, tag="seldisc")
     tlc.require_clean(r, "SelectorDisc")
     out.add_mc("SelectorDisc (enumerated package layouts x FMS; discovery laws)", r)
